@@ -48,9 +48,29 @@ func runBase(s *big.Int, path int, want ref.Pt) string {
 	var v *secp256k1.Point
 	switch path {
 	case 0:
-		v = new(secp256k1.Point).ScalarBaseMult(sc)
+		v = new(secp256k1.Point)
+		if v.ScalarBaseMult(sc) != v {
+			return "ScalarBaseMult did not return its receiver"
+		}
 	case 1:
-		v = new(secp256k1.Point).DoubleScalarMultBasepointVartime(sc, secp256k1.NewScalar(), secp256k1.NewGeneratorPoint())
+		// the exported routes to the variable-time generator multiplication: u2 = 0, P = identity (any u2), and the
+		// receiver being the (identity) point argument itself; the RECEIVER is what callers read
+		v = new(secp256k1.Point)
+		if v.DoubleScalarMultBasepointVartime(sc, secp256k1.NewScalar(), secp256k1.NewGeneratorPoint()) != v {
+			return "DoubleScalarMultBasepointVartime(s,0,G) did not return its receiver"
+		}
+		v2 := lib.MkPT(ref.G().Mul(big.NewInt(3))) // pre-loaded receiver
+		if v2.DoubleScalarMultBasepointVartime(sc, lib.MkSC(big.NewInt(5)), secp256k1.NewIdentityPoint()) != v2 {
+			return "DoubleScalarMultBasepointVartime(s,5,identity) did not return its receiver"
+		}
+		if m := lib.CheckPointLight(v2, want); m != "" {
+			return "DoubleScalarMultBasepointVartime(s, 5, identity): " + m
+		}
+		v3 := secp256k1.NewIdentityPoint()
+		v3.DoubleScalarMultBasepointVartime(sc, lib.MkSC(big.NewInt(5)), v3)
+		if m := lib.CheckPointLight(v3, want); m != "" {
+			return "q.DoubleScalarMultBasepointVartime(s, 5, q) with q the identity: " + m
+		}
 	case 2:
 		if secp256k1.VerifScalarBaseMultVartime == nil {
 			return ""
